@@ -224,7 +224,7 @@ Lemma cands_for_sound hi h di d t c :
                 * (match src_weights h with Some _ => match ow with Some w => w | None => 0 end | None => 1 end)
                 * d_lt d.
 Proof.
-  unfold cands_for. destruct (d_mc d) as [|e0 mc] eqn:Emc; [discriminate|].
+  unfold cands_for, cands_with. destruct (d_mc d) as [|e0 mc] eqn:Emc; [discriminate|].
   cbv zeta.
   remember (enum (e0 :: mc)) as emc eqn:Eemc. remember (enum (h_src h)) as esrc eqn:Eesrc.
   set (sds := map e_sd (e0 :: mc)). set (L := zmin_l (e_sd e0) sds). set (U := zmax_l (e_sd e0) sds).
@@ -232,6 +232,7 @@ Proof.
   apply orb_false_iff in Eg. destruct Eg as [EUL _]. apply Z.eqb_neq in EUL.
   intros H Hc. inversion H; subst t. clear H.
   apply in_flat_map in Hc. destruct Hc as [[k [x ow]] [Hk Hc]].
+  unfold src_cands in Hc. rewrite Emc in Hc. rewrite <- Eemc in Hc. cbv zeta in Hc.
   apply in_flat_map in Hc. destruct Hc as [[i e] [Hi Hc]]. cbn [fst snd] in Hc.
   destruct (in_band x (h_hw h) L U (e_sd e) && in_energy (h_er h) (e_en e)) eqn:Em; [|contradiction].
   destruct Hc as [Hc|[]]. subst c. cbn [c_shg c_ds c_ev c_src c_wn].
@@ -382,10 +383,14 @@ Section Gen.
   Notation gen_group := (gen_group rng choice post).
   Notation gen_shgs := (gen_shgs rng choice post).
   Notation gen_dss := (gen_dss rng choice post).
-  Notation generate := (generate rng choice post).
+  Notation generate_p := (generate_p rng choice post).
   Notation post_c := (post_c post).
 
   Variable tbl : list cand.
+  (* the probabilities of the sampler: those of the current table *)
+  Variable p : list Z.
+  Definition sampler_ok : Prop := p = map c_wn tbl.
+  Hypothesis Hp : sampler_ok.
 
   (* a candidate that may legitimately be drawn *)
   Definition drawable (c : cand) : Prop :=
@@ -419,17 +424,17 @@ Section Gen.
   Qed.
 
   Lemma drawn_drawable g k meta :
-    lookup tbl (fst (choice g (map c_wn tbl) k)) = Ok meta ->
+    lookup tbl (fst (choice g p k)) = Ok meta ->
     zlen meta = Z.of_nat k /\ Forall drawable meta.
   Proof.
-    intros H. destruct (lookup_spec _ _ H) as [Hl HF]. destruct (Hc g (map c_wn tbl) k) as [Hlen Hpos].
+    intros H. pose proof Hp as Hq. unfold sampler_ok in Hq. rewrite Hq in H. clear Hq. destruct (lookup_spec _ _ H) as [Hl HF]. destruct (Hc g (map c_wn tbl) k) as [Hlen Hpos].
     split; [unfold zlen; rewrite Hl, Hlen; reflexivity|].
     apply (lookup_drawable _ _) with (2 := HF). intros i Hi [Hnn Hex].
     apply Hpos; [| |exact Hi].
     - apply Forall_forall. intros w Hw. apply in_map_iff in Hw. destruct Hw as [c' [<- Hc']].
       rewrite Forall_forall in Hnn. apply Hnn; exact Hc'.
-    - apply Exists_exists in Hex. destruct Hex as [c' [Hc' Hp]]. apply Exists_exists.
-      exists (c_wn c'). split; [apply in_map; exact Hc'|exact Hp].
+    - apply Exists_exists in Hex. destruct Hex as [c' [Hc' Hpp]]. apply Exists_exists.
+      exists (c_wn c'). split; [apply in_map; exact Hc'|exact Hpp].
   Qed.
 
   (* what every returned event of dataset ds (validity ranges rngs) satisfies *)
@@ -449,7 +454,7 @@ Section Gen.
 
   Lemma redraw_spec rngs n_signal ds shg : forall fuel g acc r g',
     zlen acc <= n_signal -> Forall (good ds rngs) acc ->
-    redraw fuel g tbl rngs n_signal ds shg acc = Ok (r, g') ->
+    redraw fuel g p tbl rngs n_signal ds shg acc = Ok (r, g') ->
     zlen r = n_signal /\ Forall (good ds rngs) r.
   Proof.
     induction fuel as [|fuel IH]; intros g acc r g' Hle Hg H; cbn [M_Inject.redraw] in H;
@@ -476,7 +481,7 @@ Section Gen.
 
   Lemma gen_group_spec fuel g rngs ds shg meta evs g' :
     Forall drawable meta ->
-    gen_group fuel g tbl rngs ds shg meta = Ok (evs, g') ->
+    gen_group fuel g p tbl rngs ds shg meta = Ok (evs, g') ->
     zlen evs = zlen (filter (fun c => c_shg c =? shg) (filter (fun c => c_ds c =? ds) meta))
     /\ Forall (good ds rngs) evs.
   Proof.
@@ -493,7 +498,7 @@ Section Gen.
     pose proof (kept_from ds shg meta Hdr) as Hfrom. fold sel in Hfrom.
     pose proof (mask_select_valid rngs _ _ _ Ei Hfrom) as Hvalid.
     rewrite K_gen_need_redraw in H. destruct (0 <? count_true inv) eqn:En.
-    - destruct (M_Inject.redraw rng choice post fuel g tbl rngs (count_true inv) ds shg []) as [[rd g1]|] eqn:Er; [|discriminate].
+    - destruct (M_Inject.redraw rng choice post fuel g p tbl rngs (count_true inv) ds shg []) as [[rd g1]|] eqn:Er; [|discriminate].
       cbn [bind fst snd] in H.
       destruct (fill_mask (map post_c sel) inv rd) as [ev|] eqn:Ef; [|discriminate]. cbn [bind] in H.
       inversion H; subst. clear H.
@@ -511,15 +516,15 @@ Section Gen.
 
   Lemma gen_shgs_spec fuel rngs ds meta : forall shgs g evs g',
     Forall drawable meta ->
-    gen_shgs fuel g tbl rngs ds meta shgs = Ok (evs, g') ->
+    gen_shgs fuel g p tbl rngs ds meta shgs = Ok (evs, g') ->
     zlen evs = zsum (map (fun k => zlen (filter (fun c => c_shg c =? k) (filter (fun c => c_ds c =? ds) meta))) shgs)
     /\ Forall (good ds rngs) evs.
   Proof.
     induction shgs as [|shg shgs IH]; intros g evs g' Hdr H; cbn [M_Inject.gen_shgs] in H.
     - inversion H; subst. split; [reflexivity|constructor].
-    - destruct (M_Inject.gen_group rng choice post fuel g tbl rngs ds shg meta) as [[e1 g1]|] eqn:E1; [|discriminate].
+    - destruct (M_Inject.gen_group rng choice post fuel g p tbl rngs ds shg meta) as [[e1 g1]|] eqn:E1; [|discriminate].
       cbn [bind fst snd] in H.
-      destruct (M_Inject.gen_shgs rng choice post fuel g1 tbl rngs ds meta shgs) as [[e2 g2]|] eqn:E2; [|discriminate].
+      destruct (M_Inject.gen_shgs rng choice post fuel g1 p tbl rngs ds meta shgs) as [[e2 g2]|] eqn:E2; [|discriminate].
       cbn [bind fst snd] in H. inversion H; subst. clear H.
       destruct (gen_group_spec _ _ _ _ _ _ _ _ Hdr E1) as [L1 F1].
       destruct (IH _ _ _ Hdr E2) as [L2 F2].
@@ -528,46 +533,48 @@ Section Gen.
 
   Lemma gen_dss_spec fuel dss meta : forall dsis g out g',
     Forall drawable meta ->
-    gen_dss fuel g tbl dss meta dsis = Ok (out, g') ->
+    gen_dss fuel g p tbl dss meta dsis = Ok (out, g') ->
     map fst out = dsis
     /\ zsum (map (fun kv => zlen (snd kv)) out)
        = zsum (map (fun k => zlen (filter (fun c => c_ds c =? k) meta)) dsis)
     /\ (forall ds evs, In (ds, evs) out ->
-          exists d, py_get dss ds = Ok d /\ Forall (good ds (d_rng d)) evs).
+          exists d, py_get dss ds = Ok d /\ Forall (good ds (d_rng d)) evs
+                    /\ zlen evs = zlen (filter (fun c => c_ds c =? ds) meta)).
   Proof.
     induction dsis as [|ds dsis IH]; intros g out g' Hdr H; cbn [M_Inject.gen_dss] in H.
     - inversion H; subst. repeat split; try reflexivity. intros ds evs [].
     - destruct (py_get dss ds) as [d|] eqn:Ed; [|discriminate]. cbn [bind] in H. cbv zeta in H.
-      destruct (M_Inject.gen_shgs rng choice post fuel g tbl (d_rng d) ds meta _) as [[e1 g1]|] eqn:E1; [|discriminate].
+      destruct (M_Inject.gen_shgs rng choice post fuel g p tbl (d_rng d) ds meta _) as [[e1 g1]|] eqn:E1; [|discriminate].
       cbn [bind fst snd] in H.
-      destruct (M_Inject.gen_dss rng choice post fuel g1 tbl dss meta dsis) as [[o2 g2]|] eqn:E2; [|discriminate].
+      destruct (M_Inject.gen_dss rng choice post fuel g1 p tbl dss meta dsis) as [[o2 g2]|] eqn:E2; [|discriminate].
       cbn [bind fst snd] in H. inversion H; subst. clear H.
       destruct (gen_shgs_spec _ _ _ _ _ _ _ _ Hdr E1) as [L1 F1].
       destruct (IH _ _ _ Hdr E2) as [K2 [L2 F2]].
+      assert (Ef : filter (fun c => gen_ds_mask ds (c_ds c)) meta = filter (fun c => c_ds c =? ds) meta).
+      { apply filter_ext. intros c. apply K_gen_ds_mask. }
+      rewrite Ef in L1.
+      assert (Lds : zlen e1 = zlen (filter (fun c => c_ds c =? ds) meta)).
+      { rewrite L1.
+        apply (partition_count c_shg (filter (fun c => c_ds c =? ds) meta)); [apply zuniq_NoDup|].
+        intros x Hx. apply zuniq_In. apply in_map. exact Hx. }
       repeat split.
       + cbn [map fst]. rewrite K2. reflexivity.
-      + cbn [map zsum fold_right snd]. unfold zsum in L2. rewrite L2. f_equal.
-        rewrite L1.
-        assert (Ef : filter (fun c => gen_ds_mask ds (c_ds c)) meta = filter (fun c => c_ds c =? ds) meta).
-        { apply filter_ext. intros c. apply K_gen_ds_mask. }
-        rewrite Ef.
-        apply (partition_count c_shg (filter (fun c => c_ds c =? ds) meta)); [apply zuniq_NoDup|].
-        intros x Hx. apply zuniq_In. apply in_map. exact Hx.
+      + cbn [map zsum fold_right snd]. unfold zsum in L2. rewrite L2. f_equal. exact Lds.
       + intros ds' evs [E|Hin].
-        * inversion E; subst. exists d. split; assumption.
+        * inversion E; subst. exists d. repeat split; assumption.
         * apply (F2 ds' evs Hin).
   Qed.
 
   Theorem generate_count fuel g dss n_signal n out g' :
     0 <= n_signal ->
-    generate fuel g tbl dss n_signal = Ok (n, out, g') ->
+    generate_p fuel g p tbl dss n_signal = Ok (n, out, g') ->
     n = n_signal
     /\ zsum (map (fun kv => zlen (snd kv)) out) = n
     /\ NoDup (map fst out).
   Proof.
-    intros Hn H. unfold M_Inject.generate in H. cbv zeta in H.
+    intros Hn H. unfold M_Inject.generate_p in H. cbv zeta in H.
     destruct (lookup tbl _) as [meta|] eqn:El; [|discriminate]. cbn [bind] in H.
-    destruct (M_Inject.gen_dss rng choice post fuel _ tbl dss meta _) as [[o g1]|] eqn:E; [|discriminate].
+    destruct (M_Inject.gen_dss rng choice post fuel _ p tbl dss meta _) as [[o g1]|] eqn:E; [|discriminate].
     cbn [bind fst snd] in H. inversion H; subst. clear H.
     destruct (drawn_drawable _ _ _ El) as [Hlen Hdr].
     destruct (gen_dss_spec _ _ _ _ _ _ _ Hdr E) as [K [L _]].
@@ -578,16 +585,36 @@ Section Gen.
   Qed.
 
   Theorem generate_valid_aux fuel g dss n_signal n out g' :
-    generate fuel g tbl dss n_signal = Ok (n, out, g') ->
+    generate_p fuel g p tbl dss n_signal = Ok (n, out, g') ->
     forall ds evs, In (ds, evs) out ->
       exists d, py_get dss ds = Ok d /\ Forall (good ds (d_rng d)) evs.
   Proof.
-    intros H. unfold M_Inject.generate in H. cbv zeta in H.
+    intros H ds evs Hin. revert H. intros H. unfold M_Inject.generate_p in H. cbv zeta in H.
     destruct (lookup tbl _) as [meta|] eqn:El; [|discriminate]. cbn [bind] in H.
-    destruct (M_Inject.gen_dss rng choice post fuel _ tbl dss meta _) as [[o g1]|] eqn:E; [|discriminate].
+    destruct (M_Inject.gen_dss rng choice post fuel _ p tbl dss meta _) as [[o g1]|] eqn:E; [|discriminate].
     cbn [bind fst snd] in H. inversion H; subst. clear H.
     destruct (drawn_drawable _ _ _ El) as [_ Hdr].
-    destruct (gen_dss_spec _ _ _ _ _ _ _ Hdr E) as [_ [_ F]]. exact F.
+    destruct (gen_dss_spec _ _ _ _ _ _ _ Hdr E) as [_ [_ F]].
+    destruct (F ds evs Hin) as [d [F1 [F2 _]]]. exists d. split; assumption.
+  Qed.
+
+  (* per-dataset counts: the keys are the datasets of the first draw, each dataset returns as many events as
+     the first draw assigned to it (the redraw keeps dataset and group) *)
+  Theorem generate_per_dataset fuel g dss n_signal n out g' :
+    generate_p fuel g p tbl dss n_signal = Ok (n, out, g') ->
+    exists meta,
+      lookup tbl (fst (choice g p (Z.to_nat n_signal))) = Ok meta
+      /\ map fst out = zuniq (map c_ds meta)
+      /\ (forall ds evs, In (ds, evs) out -> zlen evs = zlen (filter (fun c => c_ds c =? ds) meta)).
+  Proof.
+    intros H. unfold M_Inject.generate_p in H. cbv zeta in H.
+    destruct (lookup tbl _) as [meta|] eqn:El; [|discriminate]. cbn [bind] in H.
+    destruct (M_Inject.gen_dss rng choice post fuel _ p tbl dss meta _) as [[o g1]|] eqn:E; [|discriminate].
+    cbn [bind fst snd] in H. inversion H; subst. clear H.
+    destruct (drawn_drawable _ _ _ El) as [_ Hdr].
+    destruct (gen_dss_spec _ _ _ _ _ _ _ Hdr E) as [K [_ F]].
+    exists meta. split; [reflexivity|]. split; [exact K|].
+    intros ds evs Hin. destruct (F ds evs Hin) as [d [_ [_ L]]]. exact L.
   Qed.
 End Gen.
 
@@ -603,7 +630,8 @@ Theorem generate_valid (rng : Type) (choice : rng -> list Z -> nat -> list nat *
     /\ in_ranges (d_rng d) ev.
 Proof.
   intros Hc fuel g tbl dss n_signal n out g' Hnn Hex H ds evs ev Hin Hev.
-  destruct (generate_valid_aux rng choice post Hc tbl _ _ _ _ _ _ _ H ds evs Hin) as [d [Hd HF]].
+  unfold generate in H.
+  destruct (generate_valid_aux rng choice post Hc tbl (map c_wn tbl) eq_refl _ _ _ _ _ _ _ H ds evs Hin) as [d [Hd HF]].
   rewrite Forall_forall in HF. destruct (HF ev Hev) as [[c [[Hc1 Hc2] [Hc3 Hc4]]] Hr].
   exists d, c. repeat split; try assumption. apply Hc2. split; assumption.
 Qed.
@@ -619,5 +647,5 @@ Theorem generate_count_thm (rng : Type) (choice : rng -> list Z -> nat -> list n
   /\ NoDup (map fst out).
 Proof.
   intros Hc fuel g tbl dss n_signal n out g' Hn H.
-  exact (generate_count rng choice post Hc tbl fuel g dss n_signal n out g' Hn H).
+  exact (generate_count rng choice post Hc tbl (map c_wn tbl) eq_refl fuel g dss n_signal n out g' Hn H).
 Qed.
